@@ -44,6 +44,11 @@ func genCertCase(r *Rng, tier string) (c CertCase) {
 		for i := range cnf {
 			if r.Chance(1, 3) && len(cnf[i]) > 0 {
 				cnf[i] = append(cnf[i], cnf[i][r.Intn(len(cnf[i]))])
+			} else if r.Chance(1, 6) && len(cnf[i]) > 0 { // both polarities of a variable: the clause always holds and must never act as a unit clause
+				cnf[i] = append(cnf[i], -cnf[i][r.Intn(len(cnf[i]))])
+				if r.Bool() {
+					cnf[i][0], cnf[i][len(cnf[i])-1] = cnf[i][len(cnf[i])-1], cnf[i][0]
+				}
 			}
 		}
 	}
@@ -53,6 +58,16 @@ func genCertCase(r *Rng, tier string) (c CertCase) {
 			for i := range c.Lines {
 				if r.Chance(1, 4) && len(c.Lines[i]) > 0 {
 					c.Lines[i] = append(append([]int{}, c.Lines[i]...), c.Lines[i][r.Intn(len(c.Lines[i]))])
+				}
+			}
+			if len(c.Lines) > 0 && r.Chance(1, 6) { // one line longer than any read buffer: the same clause, its literals written over and over
+				i := r.Intn(len(c.Lines))
+				if base := c.Lines[i]; len(base) > 0 {
+					long := append([]int{}, base...)
+					for len(long) < 1500+r.Intn(1500) {
+						long = append(long, base[r.Intn(len(base))])
+					}
+					c.Lines[i] = long
 				}
 			}
 		}
